@@ -194,6 +194,31 @@ let verdict_de ~(model : string) ~(impl : string) ~(doc : cell list outcome opti
        | Some dc when not (outcome_agrees obs dc) -> "viol doc=" ^ docv_str dc ^ " model=" ^ model
        | _ -> "diff model=" ^ model)
 
+(* the documented outcome for the descriptor's flavor (every flavor has one; None only where the
+   documentation is silent: a DB list naming a field twice for by-name serialization, a flatten
+   tree with colliding column names) *)
+let names_nodup (db : dbfield list) = nodupb (List.map fst db)
+let doc_ser_value d db : cell list outcome option =
+  if not d.vd_ordered then (if names_nodup db then Some (doc_ser_value_by_name d db) else None)
+  else if d.vd_snc then Some (doc_ser_value_snc d db)
+  else Some (doc_ser_value_ordered_am d db)
+let doc_de_value d db cells : cell list outcome option =
+  if not d.vd_ordered then Some (doc_deser_value_by_name d db cells)
+  else if d.vd_snc then Some (doc_deser_value_snc d db cells)
+  else Some (doc_deser_value_ordered_am d db cells)
+let doc_ser_row d cols : cell list outcome option =
+  if not d.rd_ordered then (if rdesc_wf d then Some (doc_ser_row_by_name d cols) else None)
+  else Some (doc_ser_row_ordered_gen d cols)
+let doc_de_row d ls cols cells : cell list outcome option =
+  if not d.rd_ordered then (if rdesc_wf d then Some (doc_deser_row_by_name ls cols cells) else None)
+  else if d.rd_snc then Some (doc_deser_row_snc ls cols cells)
+  else if rdesc_wf d then Some (doc_deser_row_ordered ls cols cells) else None
+
+let ser_agrees frame dc impl_ser = match dc, split_on ' ' impl_ser with
+  | Accept cs, ["ok"; b] -> hexstr_of_bytes (frame cs) = b
+  | Reject, ("err" :: _) -> true
+  | _ -> false
+
 let verdict case impl =
   match case with
   | ["SV"; _; desc; dbt; vals] ->
@@ -205,17 +230,9 @@ let verdict case impl =
     let m = ser_str (gen_ser_value d t) in
     if m <> impl_ser then begin
       (* the property on the implementation's own output: the documented outcome *)
-      let doc = match t with
-        | TNative _ -> None
-        | TUdt db ->
-          if not d.vd_ordered then Some (doc_ser_value_by_name d db)
-          else if vordered_plain d then Some (doc_ser_value_ordered d db) else None in
-      let agrees dc = match dc, split_on ' ' impl_ser with
-        | Accept cs, ["ok"; b] -> hexstr_of_bytes (frame_value cs) = b
-        | Reject, ("err" :: _) -> true
-        | _ -> false in
+      let doc = match t with TNative _ -> Some Reject | TUdt db -> doc_ser_value d db in
       match doc with
-      | Some dc when not (agrees dc) -> "viol doc=" ^ doc_str dc frame_value ^ " model=" ^ m
+      | Some dc when not (ser_agrees frame_value dc impl_ser) -> "viol doc=" ^ doc_str dc frame_value ^ " model=" ^ m
       | _ -> "diff model=" ^ m
     end else begin
       match impl_rt, t with
@@ -224,18 +241,20 @@ let verdict case impl =
         let mrt = de_str (gen_typeck_value d t) (fun () -> gen_deser_value d db cells) in
         if mrt = rt then "ok" else begin
           (* round trip on the implementation's own output: value -> bytes -> value *)
-          let expected = List.map (back_value (List.map fst db)) d.vd_fields in
+          let rt_law vs =
+            if d.vd_ordered then
+              List.length vs = List.length d.vd_fields && List.for_all2 rt_okb d.vd_fields vs
+            else cells_eqb vs (List.map (back_value (List.map fst db)) d.vd_fields) in
           match obs_de rt with
           | None -> "viol roundtrip impl-panicked model=" ^ mrt
-          | Some (Some vs) when vvals_ok d && not (cells_eqb vs expected) ->
-            "viol roundtrip expected=" ^ str_of_cells expected ^ " model=" ^ mrt
+          | Some (Some vs) when vvals_ok d && not (rt_law vs) -> "viol roundtrip value-not-restored model=" ^ mrt
           | Some None when vvals_ok d &&
-                           (let dc = if not d.vd_ordered then Some (doc_deser_value_by_name d db cells)
-                              else if vordered_plain d then Some (doc_deser_value_ordered d db cells) else None in
-                            match dc with Some (Accept _) -> true | _ -> false) ->
+                           (match doc_de_value d db cells with Some (Accept _) -> true | _ -> false) ->
             "viol roundtrip rejected-but-documented-accept model=" ^ mrt
           | _ -> "diff roundtrip model=" ^ mrt
         end
+      | None, TUdt _ when String.length impl_ser >= 2 && String.sub impl_ser 0 2 = "ok" ->
+        "error missing-roundtrip"
       | _ -> "ok"
     end
   | ["DV"; _; desc; dbt; cells] ->
@@ -245,11 +264,7 @@ let verdict case impl =
     let cells = cells_of cells in
     let db = match t with TUdt db -> db | TNative _ -> [] in
     let m = de_str (gen_typeck_value d t) (fun () -> gen_deser_value d db cells) in
-    let doc = match t with
-      | TNative _ -> Some Reject
-      | TUdt db ->
-        if not d.vd_ordered then Some (doc_deser_value_by_name d db cells)
-        else if vordered_plain d then Some (doc_deser_value_ordered d db cells) else None in
+    let doc = match t with TNative _ -> Some Reject | TUdt db -> doc_de_value d db cells in
     verdict_de ~model:m ~impl:(String.concat " " impl) ~doc
   | ["SR"; _; desc; cols; vals] ->
     let vals = ref (cells_of vals) in
@@ -258,16 +273,8 @@ let verdict case impl =
     let (impl_ser, impl_rt) = split_rt impl in
     let m = ser_str (gen_ser_row d cols) in
     if m <> impl_ser then begin
-      let doc =
-        if not (rdesc_wf d) then None
-        else if not d.rd_ordered then Some (doc_ser_row_by_name d cols)
-        else if rordered_plain d then Some (doc_ser_row_ordered d cols) else None in
-      let agrees dc = match dc, split_on ' ' impl_ser with
-        | Accept cs, ["ok"; b] -> hexstr_of_bytes (frame_cells cs) = b
-        | Reject, ("err" :: _) -> true
-        | _ -> false in
-      match doc with
-      | Some dc when not (agrees dc) -> "viol doc=" ^ doc_str dc frame_cells ^ " model=" ^ m
+      match doc_ser_row d cols with
+      | Some dc when not (ser_agrees frame_cells dc impl_ser) -> "viol doc=" ^ doc_str dc frame_cells ^ " model=" ^ m
       | _ -> "diff model=" ^ m
     end else begin
       match impl_rt, leaves_only d.rd_fields with
@@ -281,14 +288,14 @@ let verdict case impl =
           | None -> "viol roundtrip impl-panicked model=" ^ mrt
           | Some (Some vs) when vals_ok && not (cells_eqb vs expected) ->
             "viol roundtrip expected=" ^ str_of_cells expected ^ " model=" ^ mrt
-          | Some None when vals_ok && rdesc_wf d &&
-                           (let dc = if not d.rd_ordered then Some (doc_deser_row_by_name ls cols cells)
-                              else if rordered_plain d then Some (doc_deser_row_ordered ls cols cells) else None in
-                            match dc with Some (Accept _) -> true | _ -> false) ->
+          | Some None when vals_ok &&
+                           (match doc_de_row d ls cols cells with Some (Accept _) -> true | _ -> false) ->
             "viol roundtrip rejected-but-documented-accept model=" ^ mrt
           | _ -> "diff roundtrip model=" ^ mrt
         end
       | Some _, None -> "error round-trip-output-for-a-flatten-struct"
+      | None, Some _ when String.length impl_ser >= 2 && String.sub impl_ser 0 2 = "ok" ->
+        "error missing-roundtrip"
       | None, _ -> "ok"
     end
   | ["DR"; _; desc; cols; cells] ->
@@ -300,11 +307,12 @@ let verdict case impl =
        let cells = cells_of cells in
        if List.length cells <> List.length cols then "error cell-count" else
        let m = de_str (gen_typeck_row d ls cols) (fun () -> gen_deser_row d ls cols cells) in
-       let doc =
-         if not (rdesc_wf d) then None
-         else if not d.rd_ordered then Some (doc_deser_row_by_name ls cols cells)
-         else if rordered_plain d then Some (doc_deser_row_ordered ls cols cells) else None in
-       verdict_de ~model:m ~impl:(String.concat " " impl) ~doc)
+       verdict_de ~model:m ~impl:(String.concat " " impl) ~doc:(doc_de_row d ls cols cells))
+  | ["XD"; sid; registered; derived] ->
+    (* descriptor self-check: the runner derived a descriptor from the struct's attribute text in
+       its own source and compares it with the hand-written registered one *)
+    if registered = derived && (match impl with ["same"] -> true | _ -> false) then "ok"
+    else "diff descriptor-drift struct=" ^ sid
   | _ -> "error unknown-case"
 
 let () = run_lines verdict
